@@ -597,3 +597,96 @@ Proof.
     destruct (a_entry_revert e a) as [c|] eqn:E; [|discriminate].
     eapply IH; [|exact Hr]. apply awf_set_jr. eapply awf_entry_revert; eauto.
 Qed.
+
+(* ---- Finalise / IntermediateRoot respect the equivalence ------------------
+   (so the tries, and with them the roots, written after a revert are those
+   that would have been written at the snapshot) *)
+Lemma find_merge : forall upd base k,
+  find (merge base upd) k = match find upd k with Some v => Some v | None => find base k end.
+Proof.
+  induction upd as [|[k0 v0] r IH]; intros base k; cbn; [reflexivity|].
+  rewrite find_set. destruct (N.eqb k0 k); [reflexivity | apply IH].
+Qed.
+
+Lemma get_committed_finalise : forall o k, get_committed (obj_finalise o) k = get_state o k.
+Proof.
+  intros o k. unfold get_committed, get_state, obj_finalise. cbn. rewrite find_merge.
+  destruct (find (o_dirty o) k); reflexivity.
+Qed.
+Lemma get_state_finalise : forall o k, get_state (obj_finalise o) k = get_state o k.
+Proof. intros o k. unfold get_state at 1. cbn. apply get_committed_finalise. Qed.
+
+Lemma obj_finalise_sim : forall o1 o2, obj_sim o1 o2 -> obj_sim (obj_finalise o1) (obj_finalise o2).
+Proof.
+  intros o1 o2 (E1 & E2 & E3 & E4 & E5 & E6 & E7 & E8 & E9 & E10).
+  unfold obj_sim. repeat split; auto.
+  - intros k. now rewrite !get_state_finalise.
+  - intros k. now rewrite !get_committed_finalise.
+Qed.
+
+Lemma slot_update_trie : forall o k, slot (o_commit (obj_update_trie o)) k = get_state o k.
+Proof.
+  intros o k. unfold obj_update_trie, slot. cbn. rewrite !find_merge.
+  unfold get_state, get_committed, slot.
+  destruct (find (o_dirty o) k); [reflexivity|]. destruct (find (o_pending o) k); reflexivity.
+Qed.
+Lemma obj_update_trie_sim : forall o1 o2, obj_sim o1 o2 -> obj_sim (obj_update_trie o1) (obj_update_trie o2).
+Proof.
+  intros o1 o2 H. pose proof H as (E1 & E2 & E3 & E4 & E5 & E6 & E7 & E8 & E9 & E10).
+  assert (Hs : forall k, slot (o_commit (obj_update_trie o1)) k = slot (o_commit (obj_update_trie o2)) k)
+    by (intros k; now rewrite !slot_update_trie).
+  unfold obj_sim. repeat split; auto; intros k; unfold get_state, get_committed; cbn; apply Hs.
+Qed.
+Lemma sim_set_deleted : forall b o1 o2, obj_sim o1 o2 -> obj_sim (set_o_deleted b o1) (set_o_deleted b o2).
+Proof. sim_scalar. Qed.
+Lemma sim_empty : forall o1 o2, obj_sim o1 o2 -> empty_obj o1 = empty_obj o2.
+Proof. intros o1 o2 (E1 & E2 & E3 & _). unfold empty_obj. now rewrite E1, E2, E3. Qed.
+
+Lemma a_finalise_one_sim : forall d a1 a2 ad, aeq a1 a2 -> aeq (a_finalise_one d a1 ad) (a_finalise_one d a2 ad).
+Proof.
+  intros d a1 a2 ad H. unfold a_finalise_one.
+  pose proof (objs_sim_find _ _ ad (proj1 H)) as Hf.
+  destruct (find (objs a1) ad) as [o1|], (find (objs a2) ad) as [o2|]; cbn in Hf; try tauto.
+  pose proof H as (Ho & Hp & Hsd & Hat & Hrf & Hth & Htx & Hlg & Hls & Hpre & Hjr).
+  assert (Hc : (o_suicided o1 || d && empty_obj o1) = (o_suicided o2 || d && empty_obj o2)).
+  { rewrite (sim_empty _ _ Hf). destruct Hf as (_ & _ & _ & -> & _). reflexivity. }
+  rewrite Hc. unfold aeq; cbn. rewrite Hp, Hsd. repeat split; auto.
+  apply objs_sim_set; auto. destruct (o_suicided o2 || d && empty_obj o2); auto using sim_set_deleted, obj_finalise_sim.
+Qed.
+
+Lemma fold_aeq {A} : forall (f : aside -> A -> aside) l a1 a2,
+  (forall x b1 b2, aeq b1 b2 -> aeq (f b1 x) (f b2 x)) -> aeq a1 a2 -> aeq (fold_left f l a1) (fold_left f l a2).
+Proof. induction l; intros; cbn; auto. Qed.
+
+Lemma a_finalise_sim : forall d a1 a2, aeq a1 a2 -> aeq (a_finalise d a1) (a_finalise d a2).
+Proof.
+  intros d a1 a2 H. unfold a_finalise.
+  assert (Hj : jr a1 = jr a2) by (unfold aeq in H; tauto). rewrite Hj.
+  assert (Hf : aeq (fold_left (a_finalise_one d) (map fst (j_dirties (jr a2))) a1)
+                   (fold_left (a_finalise_one d) (map fst (j_dirties (jr a2))) a2))
+    by (apply fold_aeq; auto using a_finalise_one_sim).
+  unfold aeq in *; cbn; intuition.
+Qed.
+
+Lemma a_flush_one_sim : forall a1 a2 ad, aeq a1 a2 -> aeq (a_flush_one a1 ad) (a_flush_one a2 ad).
+Proof.
+  intros a1 a2 ad H. unfold a_flush_one.
+  pose proof (objs_sim_find _ _ ad (proj1 H)) as Hf.
+  destruct (find (objs a1) ad) as [o1|], (find (objs a2) ad) as [o2|]; cbn in Hf; try tauto.
+  pose proof H as (Ho & Hp & Hsd & Hat & Hrf & Hth & Htx & Hlg & Hls & Hpre & Hjr).
+  assert (Hd : o_deleted o1 = o_deleted o2) by (destruct Hf as (_ & _ & _ & _ & E & _); exact E).
+  rewrite Hd. destruct (o_deleted o2).
+  - unfold aeq; cbn. repeat split; auto using objs_sim_del.
+  - unfold aeq; cbn. repeat split; auto using objs_sim_set, obj_update_trie_sim.
+Qed.
+
+Lemma a_intermediate_root_sim : forall d a1 a2, aeq a1 a2 -> aeq (a_intermediate_root d a1) (a_intermediate_root d a2).
+Proof.
+  intros d a1 a2 H. unfold a_intermediate_root.
+  pose proof (a_finalise_sim d _ _ H) as Hf.
+  assert (Hp : pending (a_finalise d a1) = pending (a_finalise d a2)) by (unfold aeq in Hf; tauto). rewrite Hp.
+  assert (Hg : aeq (fold_left a_flush_one (pending (a_finalise d a2)) (a_finalise d a1))
+                   (fold_left a_flush_one (pending (a_finalise d a2)) (a_finalise d a2)))
+    by (apply fold_aeq; auto using a_flush_one_sim).
+  unfold aeq in *; cbn; intuition.
+Qed.
